@@ -33,12 +33,27 @@ const (
 	repoDir  = "/repo"
 )
 
+// partDef is one check binary of a property. Most properties have one part; a property whose behaviours are
+// partly sequential (Engine R) and partly schedule dependent (Engine S) has one part per engine: the parts run
+// one after the other, each with the tier's budget, and are merged into one verdict and one evidence file.
+type partDef struct {
+	Engine   string // "S" (controlled scheduler, rewritten sources) or "R" (reference-model enumeration, native)
+	Pkg      string
+	MaxProcs int
+}
+
 type propDef struct {
-	Engine      string // "S" (controlled scheduler, rewritten sources) or "R" (reference-model enumeration, native)
-	Pkg         string
+	Parts       []partDef
 	QuickBudget time.Duration
 	ThorBudget  time.Duration
-	MaxProcs    int
+}
+
+func (d propDef) engines() string {
+	var e []string
+	for _, p := range d.Parts {
+		e = append(e, p.Engine)
+	}
+	return strings.Join(e, "+")
 }
 
 var props = map[string]propDef{}
@@ -48,7 +63,18 @@ func reg(id, engine string, quick, thor time.Duration) {
 	if engine == "R" {
 		mp = 2
 	}
-	props[id] = propDef{Engine: engine, Pkg: "./checks/" + strings.ToLower(id), QuickBudget: quick, ThorBudget: thor, MaxProcs: mp}
+	props[id] = propDef{Parts: []partDef{{Engine: engine, Pkg: "./checks/" + strings.ToLower(id), MaxProcs: mp}}, QuickBudget: quick, ThorBudget: thor}
+}
+
+// addPart registers a further check binary for a property.
+func addPart(id, engine, pkg string) {
+	mp := 1
+	if engine == "R" {
+		mp = 2
+	}
+	d := props[id]
+	d.Parts = append(d.Parts, partDef{Engine: engine, Pkg: pkg, MaxProcs: mp})
+	props[id] = d
 }
 
 func init() {
@@ -72,10 +98,15 @@ func init() {
 	reg("C18", "R", 60*time.Second, 15*time.Minute)
 	reg("C19", "S", 60*time.Second, 15*time.Minute)
 	reg("C20", "R", 60*time.Second, 15*time.Minute)
+	// interrupt/resume histories of eager Workflows depend on the completion order of concurrently running
+	// nodes: those histories are explored under the controlled scheduler
+	addPart("C05", "S", "./checks/c05s")
+	addPart("C06", "S", "./checks/c06s")
 }
 
 type violation struct {
 	Property  string          `json:"property"`
+	Part      int             `json:"part,omitempty"` // index of the check binary (propDef.Parts) that found it
 	Scenario  string          `json:"scenario"`
 	Signature string          `json:"signature"`
 	MapDesc   bool            `json:"map_desc,omitempty"`
@@ -320,7 +351,7 @@ func writeOverlay(work string, engine string) string {
 		}
 	}
 	b, _ := json.MarshalIndent(map[string]any{"Replace": ov}, "", " ")
-	p := filepath.Join(work, "overlay.json")
+	p := filepath.Join(work, "overlay-"+engine+".json")
 	os.WriteFile(p, b, 0o644)
 	return p
 }
@@ -409,29 +440,49 @@ func main() {
 		os.Exit(code)
 	}
 
-	// build from the current working tree of /repo
-	ov := writeOverlay(work, def.Engine)
-	bin := filepath.Join(work, "checkbin")
-	if _, err := os.Stat(filepath.Join(verifDir, def.Pkg)); err != nil {
-		die(2, "no check implemented for %s", id)
-	}
+	// build from the current working tree of /repo: one binary per part
 	// go.sum must cover eino's dependencies
 	if _, err := os.Stat(filepath.Join(verifDir, "go.sum")); err != nil {
 		if b, err := os.ReadFile(filepath.Join(repoDir, "go.sum")); err == nil {
 			os.WriteFile(filepath.Join(verifDir, "go.sum"), b, 0o644)
 		}
 	}
-	out, err := run(verifDir, goEnv(), "go", "build", "-tags", "verif", "-overlay", ov, "-o", bin, def.Pkg)
-	if err != nil {
-		fmt.Fprintf(os.Stderr, "%s\n", out)
-		fmt.Fprintf(os.Stderr, "check: build of %s against the current /repo tree failed (infrastructure error)\n", id)
-		cleanupAndExit(2)
+	replayPart := 0
+	if replay != "" {
+		if b, err := os.ReadFile(replay); err == nil {
+			var rv violation
+			if json.Unmarshal(b, &rv) == nil && rv.Part >= 0 && rv.Part < len(def.Parts) {
+				replayPart = rv.Part
+			}
+		}
+	}
+	bins := make([]string, len(def.Parts))
+	overlays := map[string]string{}
+	for pi, part := range def.Parts {
+		if replay != "" && pi != replayPart {
+			continue
+		}
+		if _, err := os.Stat(filepath.Join(verifDir, part.Pkg)); err != nil {
+			die(2, "no check implemented for %s (%s)", id, part.Pkg)
+		}
+		ov, ok := overlays[part.Engine]
+		if !ok {
+			ov = writeOverlay(work, part.Engine)
+			overlays[part.Engine] = ov
+		}
+		bins[pi] = filepath.Join(work, fmt.Sprintf("checkbin%d", pi))
+		out, err := run(verifDir, goEnv(), "go", "build", "-tags", "verif", "-overlay", ov, "-o", bins[pi], part.Pkg)
+		if err != nil {
+			fmt.Fprintf(os.Stderr, "%s\n", out)
+			fmt.Fprintf(os.Stderr, "check: build of %s (%s) against the current /repo tree failed (infrastructure error)\n", id, part.Pkg)
+			cleanupAndExit(2)
+		}
 	}
 	buildS := time.Since(start).Seconds()
 
 	if replay != "" {
-		cmd := exec.Command(bin, "-tier", tier, "-replay", replay)
-		cmd.Env = append(os.Environ(), fmt.Sprintf("GOMAXPROCS=%d", def.MaxProcs))
+		cmd := exec.Command(bins[replayPart], "-tier", tier, "-replay", replay)
+		cmd.Env = append(os.Environ(), fmt.Sprintf("GOMAXPROCS=%d", def.Parts[replayPart].MaxProcs))
 		cmd.Stdout, cmd.Stderr = os.Stdout, os.Stderr
 		err := cmd.Run()
 		if ee, ok := err.(*exec.ExitError); ok {
@@ -450,68 +501,88 @@ func main() {
 	if budgetOverride > 0 {
 		budget = budgetOverride
 	}
-	results := make([]*result, workers)
 	infra := []string{}
 	var crashed []violation
-	var mu sync.Mutex
-	var wg sync.WaitGroup
-	for w := 0; w < workers; w++ {
-		wg.Add(1)
-		go func(w int) {
-			defer wg.Done()
-			outFile := filepath.Join(work, fmt.Sprintf("res%d.json", w))
-			a := []string{"-tier", tier, "-worker", strconv.Itoa(w), "-workers", strconv.Itoa(workers), "-out", outFile, "-budget", budget.String(), "-seed", strconv.FormatInt(seed, 10)}
-			if only != "" {
-				a = append(a, "-only", only)
-			}
-			cmd := exec.Command(bin, a...)
-			cmd.Env = append(os.Environ(), fmt.Sprintf("GOMAXPROCS=%d", def.MaxProcs), "GOMEMLIMIT=3GiB", "GOGC=400")
-			var buf bytes.Buffer
-			cmd.Stdout, cmd.Stderr = &buf, &buf
-			done := make(chan error, 1)
-			cmd.Start()
-			go func() { done <- cmd.Wait() }()
-			var werr error
-			select {
-			case werr = <-done:
-			case <-time.After(budget*2 + 5*time.Minute):
-				cmd.Process.Kill()
-				werr = fmt.Errorf("worker %d exceeded twice its budget and was killed", w)
-			}
-			b, rerr := os.ReadFile(outFile)
-			mu.Lock()
-			defer mu.Unlock()
-			if rerr != nil {
-				tail := buf.String()
-				if len(tail) > 3000 {
-					tail = tail[len(tail)-3000:]
+	var partResults [][]*result
+	for pi, part := range def.Parts {
+		pi, part := pi, part
+		bin := bins[pi]
+		results := make([]*result, workers)
+		var mu sync.Mutex
+		var wg sync.WaitGroup
+		for w := 0; w < workers; w++ {
+			wg.Add(1)
+			go func(w int) {
+				defer wg.Done()
+				outFile := filepath.Join(work, fmt.Sprintf("res%d-%d.json", pi, w))
+				a := []string{"-tier", tier, "-worker", strconv.Itoa(w), "-workers", strconv.Itoa(workers), "-out", outFile, "-budget", budget.String(), "-seed", strconv.FormatInt(seed, 10)}
+				if only != "" {
+					a = append(a, "-only", only)
 				}
-				if jb, jerr := os.ReadFile(outFile + ".journal"); jerr == nil {
-					var v violation
-					if json.Unmarshal(jb, &v) == nil {
-						v.Msg += "\n" + tail
-						crashed = append(crashed, v)
-						return
+				cmd := exec.Command(bin, a...)
+				cmd.Env = append(os.Environ(), fmt.Sprintf("GOMAXPROCS=%d", part.MaxProcs), "GOMEMLIMIT=3GiB", "GOGC=400")
+				var buf bytes.Buffer
+				cmd.Stdout, cmd.Stderr = &buf, &buf
+				done := make(chan error, 1)
+				cmd.Start()
+				go func() { done <- cmd.Wait() }()
+				var werr error
+				select {
+				case werr = <-done:
+				case <-time.After(budget*2 + 5*time.Minute):
+					cmd.Process.Kill()
+					werr = fmt.Errorf("worker %d exceeded twice its budget and was killed", w)
+				}
+				b, rerr := os.ReadFile(outFile)
+				mu.Lock()
+				defer mu.Unlock()
+				if rerr != nil {
+					tail := buf.String()
+					if len(tail) > 3000 {
+						tail = tail[len(tail)-3000:]
 					}
+					if jb, jerr := os.ReadFile(outFile + ".journal"); jerr == nil {
+						var v violation
+						if json.Unmarshal(jb, &v) == nil {
+							v.Msg += "\n" + tail
+							v.Part = pi
+							crashed = append(crashed, v)
+							return
+						}
+					}
+					infra = append(infra, fmt.Sprintf("worker %d produced no result (%v): %s", w, werr, tail))
+					return
 				}
-				infra = append(infra, fmt.Sprintf("worker %d produced no result (%v): %s", w, werr, tail))
-				return
-			}
-			r := &result{}
-			if err := json.Unmarshal(b, r); err != nil {
-				infra = append(infra, fmt.Sprintf("worker %d: bad result: %v", w, err))
-				return
-			}
-			results[w] = r
-		}(w)
+				r := &result{}
+				if err := json.Unmarshal(b, r); err != nil {
+					infra = append(infra, fmt.Sprintf("worker %d: bad result: %v", w, err))
+					return
+				}
+				for i := range r.Violations {
+					r.Violations[i].Part = pi
+				}
+				results[w] = r
+			}(w)
+		}
+		wg.Wait()
+		partResults = append(partResults, results)
 	}
-	wg.Wait()
 
 	// merge
 	m := &result{Outcomes: map[string]int64{}, Counters: map[string]int64{}, BoundDone: 1 << 30}
 	states := map[uint64]struct{}{}
 	var stateSum int64
-	for _, r := range results {
+	var allResults []*result
+	for pi, rs := range partResults {
+		for _, r := range rs {
+			if r != nil && len(def.Parts) > 1 {
+				tag := fmt.Sprintf("part %d (engine %s, %s): ", pi+1, def.Parts[pi].Engine, def.Parts[pi].Pkg)
+				r.Rule, r.Explanation = tag+r.Rule, tag+r.Explanation
+			}
+			allResults = append(allResults, r)
+		}
+	}
+	for _, r := range allResults {
 		if r == nil {
 			continue
 		}
@@ -571,8 +642,24 @@ func main() {
 				m.Notes = append(m.Notes, n)
 			}
 		}
-		if m.Rule == "" {
-			m.Rule, m.Assumptions, m.Explanation = r.Rule, r.Assumptions, r.Explanation
+		if !strings.Contains(m.Rule, r.Rule) {
+			if m.Rule != "" {
+				m.Rule += " || "
+				m.Explanation += " || "
+			}
+			m.Rule += r.Rule
+			m.Explanation += r.Explanation
+		}
+		for _, a := range r.Assumptions {
+			dup := false
+			for _, o := range m.Assumptions {
+				if o == a {
+					dup = true
+				}
+			}
+			if !dup {
+				m.Assumptions = append(m.Assumptions, a)
+			}
 		}
 	}
 	if len(crashed) > 0 {
@@ -598,17 +685,18 @@ func main() {
 		}
 		return a.Scenario < b.Scenario
 	})
+	tried := map[string]int{}
 	for _, v := range m.Violations {
-		seenSig[v.Signature]++
 		isKnown := false
 		for _, f := range findings {
 			if f.Property == id && f.Status == "known" && f.Signature == v.Signature {
 				isKnown = true
 			}
 		}
-		if seenSig[v.Signature] > 3 || (isKnown && seenSig[v.Signature] > 1) {
-			continue // keep at most 3 replay files per class (1 for a listed known finding)
+		if seenSig[v.Signature] >= 3 || (isKnown && seenSig[v.Signature] >= 1) || tried[v.Signature] >= 8 {
+			continue // keep at most 3 confirmed replay files per class (1 for a listed known finding); give up after 8 attempts
 		}
+		tried[v.Signature]++
 		vb, _ := json.MarshalIndent(v, "", " ")
 		sum := sha256.Sum256(vb)
 		os.MkdirAll(replDir, 0o755)
@@ -618,8 +706,8 @@ func main() {
 		fails := 0
 		const reps = 5
 		for i := 0; i < reps; i++ {
-			cmd := exec.Command(bin, "-tier", tier, "-replay", rp)
-			cmd.Env = append(os.Environ(), fmt.Sprintf("GOMAXPROCS=%d", def.MaxProcs))
+			cmd := exec.Command(bins[v.Part], "-tier", tier, "-replay", rp)
+			cmd.Env = append(os.Environ(), fmt.Sprintf("GOMAXPROCS=%d", def.Parts[v.Part].MaxProcs))
 			cmd.Stdout, cmd.Stderr = io.Discard, io.Discard
 			cmd.Start()
 			done := make(chan error, 1)
@@ -652,6 +740,7 @@ func main() {
 			continue
 		}
 		confirmed++
+		seenSig[v.Signature]++
 		known := false
 		for _, f := range findings {
 			if f.Property == id && f.Status == "known" && f.Signature == v.Signature {
@@ -685,14 +774,14 @@ func main() {
 		"capped":                        m.Capped,
 		"cap_reason":                    m.CapReason,
 		"workers":                       workers,
-		"engine":                        def.Engine,
+		"engine":                        def.engines(),
 		"build_s":                       buildS,
 		"explanation":                   m.Explanation,
 		"notes":                         m.Notes,
 		"known_findings_reported":       len(knownPrinted),
 		"violations_confirmed":          confirmed,
 	}
-	if def.Engine == "S" {
+	if strings.Contains(def.engines(), "S") {
 		if m.BoundDone == 1<<30 {
 			m.BoundDone = -1
 		}
@@ -720,7 +809,7 @@ func main() {
 		die(2, "evidence: %v", err)
 	}
 	fmt.Printf("check %s %s: engine=%s scenarios=%d evaluations=%d transitions=%d states=%d nontrivial=%d outcomes=%d exhaustive=%v capped=%v(%s) violations=%d known=%d wall=%.1fs\n",
-		id, tier, def.Engine, m.Scenarios, m.Evaluations, m.Transitions, nStates, m.Nontrivial, len(m.Outcomes), exhaustive, m.Capped, m.CapReason, len(unlisted), len(knownPrinted), time.Since(start).Seconds())
+		id, tier, def.engines(), m.Scenarios, m.Evaluations, m.Transitions, nStates, m.Nontrivial, len(m.Outcomes), exhaustive, m.Capped, m.CapReason, len(unlisted), len(knownPrinted), time.Since(start).Seconds())
 	if len(unlisted) > 0 {
 		cleanupAndExit(1)
 	}
@@ -738,9 +827,11 @@ func warm(work string) {
 	for _, eng := range []string{"S", "R"} {
 		var pkgs []string
 		for _, d := range props {
-			if d.Engine == eng {
-				if _, err := os.Stat(filepath.Join(verifDir, d.Pkg)); err == nil {
-					pkgs = append(pkgs, d.Pkg)
+			for _, part := range d.Parts {
+				if part.Engine == eng {
+					if _, err := os.Stat(filepath.Join(verifDir, part.Pkg)); err == nil {
+						pkgs = append(pkgs, part.Pkg)
+					}
 				}
 			}
 		}
